@@ -1,6 +1,8 @@
+#![allow(dead_code)]
 mod util;
 mod p23;
 mod p29;
+mod p31;
 
 use util::Ctx;
 
@@ -30,6 +32,7 @@ fn main() {
     match prop.as_str() {
         "C23" => p23::run(&mut ctx),
         "C29" => p29::run(&mut ctx),
+        "C31" => p31::run(&mut ctx),
         _ => { eprintln!("unknown property {prop}"); std::process::exit(2); }
     }
     ctx.finish();
